@@ -476,6 +476,26 @@ fn main() {
             drop(snaps);
             drop(db);
         }
+        // write_fault wal|room : a put whose write-ahead-log append fails, then a second put against the failed database
+        "write_fault" => {
+            use raindb::{ReadOptions, WriteOptions};
+            let fs = rdbv::faultfs::FaultFs::new();
+            let mut o = raindb::DbOptions::with_memory_env();
+            o.filesystem_provider = std::sync::Arc::new(fs.clone());
+            o.db_path = "db".to_string();
+            o.create_if_missing = true;
+            let db = raindb::DB::open(o).expect("open");
+            let _ = db.put(WriteOptions::default(), b"a".to_vec(), b"1".to_vec());
+            fs.arm("wal", 1, true);
+            let r1 = db.put(WriteOptions::default(), b"k".to_vec(), b"v".to_vec());
+            println!("put_result={}", if r1.is_ok() { "Ok" } else { "Err" });
+            println!("fault_hit={}", fs.failures() > 0);
+            let g = db.get(ReadOptions::default(), b"k");
+            println!("get_after={}", if g.is_ok() { "found" } else { "missing" });
+            let r2 = db.put(WriteOptions::default(), b"k2".to_vec(), b"v2".to_vec());
+            println!("second_put_result={}", if r2.is_ok() { "Ok" } else { "Err" });
+            fs.disarm();
+        }
         other => {
             eprintln!("unknown command {}", other);
             std::process::exit(2);
